@@ -750,6 +750,7 @@ def build_dro_single(spec, variant=None):
     B = Built()
     B.model = m
     B.obj_sign = 1.0
+    B.arrays, B.digests = [], []
     nx, nz = spec['nx'], spec['nz']
     xs = [m.dvar(s_) for s_ in spec['xsplit']]
     zs = [m.rvar(s_) for s_ in spec['zsplit']]
